@@ -191,8 +191,21 @@ pub fn c11_component_searches(quick: bool) -> Vec<Search> {
     alpha3.push(TOp::Put2(1, Sz::Ten));
     alpha3.push(TOp::Remove2(1));
     alpha3.push(TOp::Dealloc2);
+    // multi-leaf trees whose every cell has an overflow chain; removal through remove_tuple (VACUUM's path) of single
+    // keys and of runs (several removals in a row merge leaves and clone fresh dividers)
+    let mut alpha4 = vec![];
+    for (r, c) in [(0u8, 1u8), (0, 3), (1, 1), (1, 2), (2, 1), (2, 3)] {
+        alpha4.push(TOp::RemRunT(r, c));
+        alpha4.push(TOp::RemRun(r, c));
+    }
+    alpha4.push(TOp::InsRun(1, 2, Sz::OneHalf));
+    alpha4.push(TOp::InsRun(2, 3, Sz::Three));
+    alpha4.push(TOp::Put(5, Sz::Tiny));
+    alpha4.push(TOp::Put(5, Sz::Three));
     let small_cache = Cfg { page_size: 4096, cache: 8, pool: 1, min_keys: 3, siblings: 2 };
     vec![
+        bt_search("C11", "seed: 12 rows of 1.5 pages (multi-leaf, every cell and every divider carries an overflow pointer): removal of single keys and of runs through Btree::remove_tuple (VACUUM's path) and through Btree::remove, re-inserts", cfg(4096, 3, 2), Kind::BigUInt, vec![TOp::SeedRun(12, Sz::OneHalf, false)], alpha4.clone(), if quick { 3 } else { 5 }, if quick { 60_000 } else { 3_000_000 }),
+        bt_search("C11", "seed: 8 rows of 3 pages, siblings 1: the same removal alphabet", cfg(4096, 3, 1), Kind::BigUInt, vec![TOp::SeedRun(8, Sz::Three, false)], alpha4, if quick { 3 } else { 4 }, if quick { 60_000 } else { 3_000_000 }),
         bt_search("C11", "8-page cache, 10-page overflow chains: build, shrink, grow, remove, whole-tree dealloc", small_cache, Kind::BigUInt, vec![], alpha3, if quick { 4 } else { 6 }, if quick { 60_000 } else { 3_000_000 }),
         bt_search("C11", "two trees sharing a pager: overflow rows, shrinking/growing updates, removes, whole-tree dealloc (from empty)", cfg(4096, 3, 2), Kind::BigUInt, vec![], alpha, if quick { 4 } else { 6 }, if quick { 150_000 } else { 6_000_000 }),
         bt_search("C11", "multi-level first tree (120 keys of 200 B) + second tree grown and deallocated: runs of inserts/removes, whole-tree dealloc of a multi-level tree", cfg(4096, 3, 2), Kind::BigUInt, vec![TOp::SeedRun(120, Sz::S200, false)], alpha2, if quick { 3 } else { 5 }, if quick { 60_000 } else { 3_000_000 }),
